@@ -170,7 +170,12 @@ def lshift_simplifier(val, shift):
         return val
     if val.op == "__lshift__":
         real_val, inner_shift = val.args
-        return real_val << (inner_shift + shift)
+        # (x << a) << b == x << (a + b) only if a + b does not wrap around the bit width
+        if inner_shift.op == "BVV" and shift.op == "BVV":
+            total = inner_shift.args[0] + shift.args[0]
+            if total >= val.size():
+                return claripy.BVV(0, val.size())
+            return real_val << total
     return None
 
 
